@@ -134,20 +134,24 @@ def _run(ctx: Ctx, args, t0: float) -> int:
     broken: list[str] = []          # theorem / tie names that no longer check
     broken_detail: list[dict] = []
 
-    # 1. regenerate translated definitions from /repo
+    # 1+2. regenerate translated definitions from /repo, then build — under one lock, so that a
+    # concurrent check cannot swap the generated files between the two steps
     gen_info = {}
-    if spec.get("translate"):
-        import translate
-        try:
-            gen_info = translate.regenerate(spec["translate"])
-        except translate.TranslateError as e:
-            broken.append(f"translator:{e.where}")
-            broken_detail.append({"stage": "translate", "where": e.where, "msg": str(e)})
-
-    # 2. build
     prop_files = [lb.LEAN / f for f in spec["prop_files"]]
     lemma_files = [lb.LEAN / f for f in spec.get("lemma_files", [])]
-    b = lb.build(spec["lean_targets"])
+    with lb.build_lock():
+        if spec.get("translate"):
+            import translate
+            try:
+                gen_info = translate.regenerate(spec["translate"])
+            except translate.TranslateError as e:
+                broken.append(f"translator:{e.where}")
+                broken_detail.append({"stage": "translate", "where": e.where, "msg": str(e)})
+        b = lb.build(spec["lean_targets"], locked=True)
+        driver_ok = b["ok"]
+        if not b["ok"] and spec.get("driver_targets"):
+            # proofs broke: the executable model may still build, so the search can use the driver
+            driver_ok = lb.build(spec["driver_targets"], locked=True)["ok"]
     all_thms = [t for f in prop_files + lemma_files if f.exists() for t in lb.theorems_in(f)]
     failed_thms = set()
     if not b["ok"]:
@@ -188,7 +192,8 @@ def _run(ctx: Ctx, args, t0: float) -> int:
     # 4+5. correspondence and implementation-side search
     ctx.intensify = bool(broken)
     ctx.broken = broken
-    ex: Exploration = mod.explore(ctx) if b["ok"] or spec.get("explore_without_build") else (
+    ctx.driver_ok = driver_ok
+    ex: Exploration = mod.explore(ctx) if driver_ok else (
         mod.explore_impl_only(ctx) if hasattr(mod, "explore_impl_only") else Exploration(rule="build failed; no exploration"))
 
     known, _fixed = load_known()
